@@ -236,7 +236,11 @@ func c17Run(c c17Case) rt.CaseResult {
 		}
 	case "grow":
 		half := mg.NewStoreWithEDB(c.store, edb[:len(edb)/2])
-		if pv, st := rt.Try(func() { mg.Eval(pp.pi, half, engine.WithCreatedFactLimit(1000)) }); pv != nil {
+		firstLimit := 1000
+		if !converges {
+			firstLimit = c.limit + 10 // diverging shapes grow their terms with every round: keep the first run short
+		}
+		if pv, st := rt.Try(func() { mg.Eval(pp.pi, half, engine.WithCreatedFactLimit(firstLimit)) }); pv != nil {
 			viol("panic", fmt.Sprintf("first evaluation: %v at %s", pv, rt.ShortStack(st)))
 			return res
 		}
